@@ -13,8 +13,7 @@ from nutree import IterMethod, Node, Tree
 from nutree.typed_tree import TypedTree
 
 
-class CbBoom(Exception):
-    pass
+from booms import CbBoom, boom  # noqa: E402
 
 
 class Bij:
@@ -52,7 +51,7 @@ class ImplWorld:
                 i = _pool.attrs[i]["obj"]
                 if i in _t:
                     if _t[i] is None:
-                        raise CbBoom("calc_data_id")
+                        raise boom("calc_data_id")
                     return _t[i]
                 return hash(data)
 
@@ -109,7 +108,7 @@ class ImplWorld:
         except RecursionError:
             return "recursion"
         except Exception as e:  # noqa
-            if type(e).__name__ == "Boom":     # props/c08.py: the exception a harness predicate raises ("raiseOther")
+            if isinstance(e, CbBoom) or type(e).__name__ == "Boom":     # props/c08.py: the exception a harness predicate raises ("raiseOther")
                 return "callback"
             return adapter.err_class(e)
 
@@ -234,7 +233,7 @@ class ImplWorld:
                     mid = _bij.i2m.get(id(node))
                     v = _tbl.get(str(mid), "")
                     if v is None:
-                        raise CbBoom("key")
+                        raise boom("key")
                     return v
 
                 kw["key"] = keyfn
@@ -530,6 +529,32 @@ def oracle_structure(impl, ti, bij, pool, driver):
                 res["index"].append(f"find_first(data_id) of {n!r} -> {ff!r}")
         except Exception as e:  # noqa
             res["index"].append(f"clone queries of {n!r} raised {e!r}")
+    # branch-scoped lookups by id: exactly the nodes of that branch that carry the id, in pre-order
+    def below(n):
+        for c in n.children:
+            yield c
+            yield from below(c)
+
+    branches = [n for n in reachable if n.children][:6]
+    for n in branches:
+        sub = list(below(n))
+        for d in dids[:8]:
+            for add_self in (False, True):
+                want = ([n] if add_self and n.data_id == d else []) + [m for m in sub if m.data_id == d]
+                try:
+                    got = n.find_all(data_id=d, add_self=add_self)
+                except Exception as e:  # noqa
+                    res["index"].append(f"{n!r}.find_all(data_id={pool.canon_did(d)!r}, add_self={add_self}) raised {e!r}")
+                    continue
+                if list(map(id, got)) != list(map(id, want)):
+                    res["index"].append(f"{n!r}.find_all(data_id={pool.canon_did(d)!r}, add_self={add_self}) = {got!r}, in the branch: {want!r}")
+            try:
+                ff = n.find_first(data_id=d)
+            except Exception as e:  # noqa
+                ff = e
+            w1 = next((m for m in sub if m.data_id == d), None)
+            if ff is not w1:
+                res["index"].append(f"{n!r}.find_first(data_id={pool.canon_did(d)!r}) = {ff!r}, in the branch: {w1!r}")
     try:
         tree._self_check()
     except Exception as e:  # noqa
